@@ -149,6 +149,9 @@ def rest_of_c12(cx):
 
     # C12.e pending-queue discipline ------------------------------------------------------------------------
     pending_discipline(cx, "C12.e")
+    # "retransmitted until acknowledged": shared with C02.d
+    from props.C02 import inst_resend_pairing
+    inst_resend_pairing(cx, "C12.f")
 
 
 def pending_discipline(cx, iid):
